@@ -1,17 +1,2038 @@
-//! C06 — correspondence driver (stub: not built yet).
+//! C06 — record containers (`RecordTensor`, `RecordMatrix`) against the container model, and
+//! against the same computation done with scalar `Record`s in this harness (`scalar=ok`).
+//! Also the container part of C15: cross-tape pairings of every container binary operation,
+//! container `reset` / tape `clear` cycles.
+//!
+//! Line protocol: lean/Driver/C06.lean.  Generator: c06/gen.rs.
+//!
+//! Every named container is stored owned (`Tensor` / `Matrix` source).  An operand `name/<view>`
+//! is turned, for the one operation, into a container over another source kind: `&RecordTensor`
+//! (`ref`), `TensorAccess` (`acc`), `TensorTranspose` (`tr`), `TensorRange` / `MatrixRange` (`rg`),
+//! `TensorReverse` / `MatrixReverse` (`rev`); assigning operations get the `&mut` versions and
+//! write through.  The scalar mirror keeps, per container, one `Record` per element on *shadow*
+//! tapes (one per tape of the case, cleared together with it) and repeats every operation element
+//! by element in row-major order of the view.
 
+use crate::c04::{binary_fn, extend, show_list, two, unary_fn, El, Rc, TapeBox, F1, F2};
+use crate::exact::{Fp, Rat};
 use crate::util::*;
+use easy_ml::differentiation::record_operations::SwappedOperations;
+use easy_ml::differentiation::{Derivatives, Index, Primitive, Record, RecordMatrix, RecordTensor, WengertList};
+use easy_ml::matrices::views::{MatrixMut, MatrixRange, MatrixRef, MatrixReverse, MatrixView, NoInteriorMutability, Reverse};
+use easy_ml::matrices::Matrix;
+use easy_ml::numeric::extra::{Cos, Exp, Ln, Pow, Sin, Sqrt};
+use easy_ml::numeric::{FromUsize, Numeric, NumericRef, ZeroOne};
+use easy_ml::tensors::indexing::{TensorAccess, TensorTranspose};
+use easy_ml::tensors::views::{TensorMut, TensorRange, TensorRef, TensorReverse, TensorView};
+use easy_ml::tensors::{Dimension, Tensor};
+use std::collections::HashMap;
 
-pub fn gen(_g: &mut Gen) {}
+#[path = "c06_gen.rs"]
+mod gen_impl;
+pub use gen_impl::gen;
 
-pub struct Runner;
+pub type RT<T, const D: usize> = RecordTensor<'static, T, Tensor<(T, Index), D>, D>;
+pub type RM<T> = RecordMatrix<'static, T, Matrix<(T, Index)>>;
+pub type Sh = Vec<(&'static str, usize)>;
+
+// ---------------------------------------------------------------------------------------------
+// views
+// ---------------------------------------------------------------------------------------------
+
+#[derive(Clone, Debug, PartialEq)]
+pub enum ViewSpec {
+    Own,
+    Ref,
+    Acc(Vec<usize>),
+    Tr(Vec<usize>),
+    Rg(Vec<(usize, usize)>),
+    Rev(Vec<bool>),
+}
+
+impl ViewSpec {
+    /// the owned container itself or a plain borrow of it
+    pub fn is_basic(&self) -> bool {
+        matches!(self, ViewSpec::Own | ViewSpec::Ref)
+    }
+}
+
+pub fn parse_view(s: &str) -> Option<ViewSpec> {
+    let parts: Vec<&str> = s.split('.').collect();
+    let nums = |p: &[&str]| p.iter().map(|x| x.parse::<usize>().ok()).collect::<Option<Vec<usize>>>();
+    match parts[0] {
+        "ref" if parts.len() == 1 => Some(ViewSpec::Ref),
+        "acc" => nums(&parts[1..]).map(ViewSpec::Acc),
+        "tr" => nums(&parts[1..]).map(ViewSpec::Tr),
+        "rg" => parts[1..]
+            .iter()
+            .map(|r| {
+                let (a, b) = r.split_once('+')?;
+                Some((a.parse().ok()?, b.parse().ok()?))
+            })
+            .collect::<Option<Vec<(usize, usize)>>>()
+            .map(ViewSpec::Rg),
+        "rev" => parts[1..]
+            .iter()
+            .map(|f| match *f {
+                "1" => Some(true),
+                "0" => Some(false),
+                _ => None,
+            })
+            .collect::<Option<Vec<bool>>>()
+            .map(ViewSpec::Rev),
+        _ => None,
+    }
+}
+
+pub fn parse_operand(tok: &str) -> Option<(&str, ViewSpec)> {
+    match tok.split_once('/') {
+        None => Some((tok, ViewSpec::Own)),
+        Some((n, v)) => parse_view(v).map(|v| (n, v)),
+    }
+}
+
+pub fn show_view(v: &ViewSpec) -> String {
+    let join = |xs: Vec<String>| xs.join(".");
+    match v {
+        ViewSpec::Own => String::new(),
+        ViewSpec::Ref => "/ref".into(),
+        ViewSpec::Acc(p) => format!("/acc.{}", join(p.iter().map(|x| x.to_string()).collect())),
+        ViewSpec::Tr(p) => format!("/tr.{}", join(p.iter().map(|x| x.to_string()).collect())),
+        ViewSpec::Rg(r) => format!("/rg.{}", join(r.iter().map(|(a, b)| format!("{}+{}", a, b)).collect())),
+        ViewSpec::Rev(f) => format!("/rev.{}", join(f.iter().map(|b| if *b { "1".to_string() } else { "0".to_string() }).collect())),
+    }
+}
+
+fn strides(shape: &[(&'static str, usize)]) -> Vec<usize> {
+    (0..shape.len()).map(|d| shape[d + 1..].iter().map(|x| x.1).product()).collect()
+}
+
+fn all_indexes(lens: &[usize]) -> Vec<Vec<usize>> {
+    let mut out = vec![vec![]];
+    for &l in lens {
+        let mut next = vec![];
+        for prefix in &out {
+            for i in 0..l {
+                let mut p = prefix.clone();
+                p.push(i);
+                next.push(p);
+            }
+        }
+        out = next;
+    }
+    out
+}
+
+fn is_perm(p: &[usize], d: usize) -> bool {
+    p.len() == d && (0..d).all(|k| p.contains(&k))
+}
+
+/// The shape a view shows and, per view element in row-major order, the offset of the element in
+/// the owned (row-major) container.  `None`: not a view of this shape.
+pub fn view_of(shape: &[(&'static str, usize)], spec: &ViewSpec, is_matrix: bool) -> Option<(Sh, Vec<usize>)> {
+    let st = strides(shape);
+    let d = shape.len();
+    let dot = |a: &[usize], b: &[usize]| a.iter().zip(b).map(|(x, y)| x * y).sum::<usize>();
+    match spec {
+        ViewSpec::Own | ViewSpec::Ref => Some((shape.to_vec(), (0..shape.iter().map(|x| x.1).product()).collect())),
+        ViewSpec::Acc(p) | ViewSpec::Tr(p) => {
+            if is_matrix || !is_perm(p, d) {
+                return None;
+            }
+            let lens: Vec<usize> = p.iter().map(|&k| shape[k].1).collect();
+            let pst: Vec<usize> = p.iter().map(|&k| st[k]).collect();
+            let vshape: Sh = match spec {
+                ViewSpec::Acc(_) => p.iter().map(|&k| shape[k]).collect(),
+                _ => (0..d).map(|k| (shape[k].0, lens[k])).collect(),
+            };
+            Some((vshape, all_indexes(&lens).iter().map(|i| dot(i, &pst)).collect()))
+        }
+        ViewSpec::Rg(r) => {
+            if r.len() != d || !(0..d).all(|k| r[k].1 >= 1 && r[k].0 + r[k].1 <= shape[k].1) {
+                return None;
+            }
+            let lens: Vec<usize> = r.iter().map(|x| x.1).collect();
+            let base = dot(&r.iter().map(|x| x.0).collect::<Vec<_>>(), &st);
+            let vshape: Sh = (0..d).map(|k| (shape[k].0, lens[k])).collect();
+            Some((vshape, all_indexes(&lens).iter().map(|i| base + dot(i, &st)).collect()))
+        }
+        ViewSpec::Rev(f) => {
+            if f.len() != d {
+                return None;
+            }
+            let lens: Vec<usize> = shape.iter().map(|x| x.1).collect();
+            Some((
+                shape.to_vec(),
+                all_indexes(&lens)
+                    .iter()
+                    .map(|i| dot(&(0..d).map(|k| if f[k] { lens[k] - 1 - i[k] } else { i[k] }).collect::<Vec<_>>(), &st))
+                    .collect(),
+            ))
+        }
+    }
+}
+
+/// `$v` is bound to a container over the requested source kind, built from `&RT<T, D>`.
+macro_rules! tview {
+    ($D:literal, $base:expr, $spec:expr, $v:ident => $body:expr) => {{
+        let base = $base;
+        let h = base.history();
+        let shape = base.shape();
+        match $spec {
+            ViewSpec::Own => {
+                let $v = base.clone();
+                $body
+            }
+            ViewSpec::Ref => {
+                let $v = RecordTensor::from_existing(h, TensorView::from(base));
+                $body
+            }
+            ViewSpec::Acc(p) => {
+                let dims: [Dimension; $D] = std::array::from_fn(|k| shape[p[k]].0);
+                let $v = RecordTensor::from_existing(h, TensorView::from(TensorAccess::from(base, dims)));
+                $body
+            }
+            ViewSpec::Tr(p) => {
+                let dims: [Dimension; $D] = std::array::from_fn(|k| shape[p[k]].0);
+                let $v = RecordTensor::from_existing(h, TensorView::from(TensorTranspose::from(base, dims)));
+                $body
+            }
+            ViewSpec::Rg(r) => {
+                let ranges: [Option<std::ops::Range<usize>>; $D] = std::array::from_fn(|k| Some(r[k].0..r[k].0 + r[k].1));
+                let $v = RecordTensor::from_existing(h, TensorView::from(TensorRange::from_all(base, ranges).expect("range")));
+                $body
+            }
+            ViewSpec::Rev(f) => {
+                let names: Vec<Dimension> = (0..$D).filter(|&k| f[k]).map(|k| shape[k].0).collect();
+                let $v = RecordTensor::from_existing(h, TensorView::from(TensorReverse::from(base, &names)));
+                $body
+            }
+        }
+    }};
+}
+
+/// The same over `&mut RT<T, D>`; `$body` evaluates to `Result<container, PanicKind>`.  With the
+/// owned spec the operation runs on a copy which replaces the stored container on success;
+/// with a view the writes have gone through.
+macro_rules! tview_mut {
+    ($D:literal, $base:expr, $spec:expr, $v:ident => $body:expr) => {{
+        let base = $base;
+        let h = base.history();
+        let shape = base.shape();
+        match $spec {
+            ViewSpec::Own => {
+                let $v = base.clone();
+                let r = $body;
+                r.map(|n| {
+                    *base = n;
+                })
+            }
+            ViewSpec::Ref => {
+                let $v = RecordTensor::from_existing(h, TensorView::from(&mut *base));
+                let r = $body;
+                r.map(|_| ())
+            }
+            ViewSpec::Acc(p) => {
+                let dims: [Dimension; $D] = std::array::from_fn(|k| shape[p[k]].0);
+                let $v = RecordTensor::from_existing(h, TensorView::from(TensorAccess::from(&mut *base, dims)));
+                let r = $body;
+                r.map(|_| ())
+            }
+            ViewSpec::Tr(p) => {
+                let dims: [Dimension; $D] = std::array::from_fn(|k| shape[p[k]].0);
+                let $v = RecordTensor::from_existing(h, TensorView::from(TensorTranspose::from(&mut *base, dims)));
+                let r = $body;
+                r.map(|_| ())
+            }
+            ViewSpec::Rg(r_) => {
+                let ranges: [Option<std::ops::Range<usize>>; $D] = std::array::from_fn(|k| Some(r_[k].0..r_[k].0 + r_[k].1));
+                let $v = RecordTensor::from_existing(h, TensorView::from(TensorRange::from_all(&mut *base, ranges).expect("range")));
+                let r = $body;
+                r.map(|_| ())
+            }
+            ViewSpec::Rev(f) => {
+                let names: Vec<Dimension> = (0..$D).filter(|&k| f[k]).map(|k| shape[k].0).collect();
+                let $v = RecordTensor::from_existing(h, TensorView::from(TensorReverse::from(&mut *base, &names)));
+                let r = $body;
+                r.map(|_| ())
+            }
+        }
+    }};
+}
+
+macro_rules! mview {
+    ($base:expr, $spec:expr, $v:ident => $body:expr) => {{
+        let base = $base;
+        let h = base.history();
+        match $spec {
+            ViewSpec::Own => {
+                let $v = base.clone();
+                $body
+            }
+            ViewSpec::Ref => {
+                let $v = RecordMatrix::from_existing(h, MatrixView::from(base));
+                $body
+            }
+            ViewSpec::Rg(r) => {
+                let $v = RecordMatrix::from_existing(
+                    h,
+                    MatrixView::from(MatrixRange::from(base, r[0].0..r[0].0 + r[0].1, r[1].0..r[1].0 + r[1].1)),
+                );
+                $body
+            }
+            ViewSpec::Rev(f) => {
+                let $v = RecordMatrix::from_existing(
+                    h,
+                    MatrixView::from(MatrixReverse::from(base, Reverse { rows: f[0], columns: f[1] })),
+                );
+                $body
+            }
+            _ => panic!("harness: view kind not available for matrices"),
+        }
+    }};
+}
+
+macro_rules! mview_mut {
+    ($base:expr, $spec:expr, $v:ident => $body:expr) => {{
+        let base = $base;
+        let h = base.history();
+        match $spec {
+            ViewSpec::Own => {
+                let $v = base.clone();
+                let r = $body;
+                r.map(|n| {
+                    *base = n;
+                })
+            }
+            ViewSpec::Ref => {
+                let $v = RecordMatrix::from_existing(h, MatrixView::from(&mut *base));
+                let r = $body;
+                r.map(|_| ())
+            }
+            ViewSpec::Rg(r_) => {
+                let $v = RecordMatrix::from_existing(
+                    h,
+                    MatrixView::from(MatrixRange::from(&mut *base, r_[0].0..r_[0].0 + r_[0].1, r_[1].0..r_[1].0 + r_[1].1)),
+                );
+                let r = $body;
+                r.map(|_| ())
+            }
+            ViewSpec::Rev(f) => {
+                let $v = RecordMatrix::from_existing(
+                    h,
+                    MatrixView::from(MatrixReverse::from(&mut *base, Reverse { rows: f[0], columns: f[1] })),
+                );
+                let r = $body;
+                r.map(|_| ())
+            }
+            _ => panic!("harness: view kind not available for matrices"),
+        }
+    }};
+}
+
+macro_rules! tview_basic {
+    ($D:literal, $base:expr, $spec:expr, $v:ident => $body:expr) => {{
+        let base = $base;
+        let h = base.history();
+        let shape = base.shape();
+        match $spec {
+            ViewSpec::Own => {
+                let $v = base.clone();
+                $body
+            }
+            ViewSpec::Ref => {
+                let $v = RecordTensor::from_existing(h, TensorView::from(base));
+                $body
+            }
+            _ => unreachable!("harness: view kind not dispatched here"),
+        }
+    }};
+}
+
+macro_rules! tview_fancy {
+    ($D:literal, $base:expr, $spec:expr, $v:ident => $body:expr) => {{
+        let base = $base;
+        let h = base.history();
+        let shape = base.shape();
+        match $spec {
+            ViewSpec::Acc(p) => {
+                let dims: [Dimension; $D] = std::array::from_fn(|k| shape[p[k]].0);
+                let $v = RecordTensor::from_existing(h, TensorView::from(TensorAccess::from(base, dims)));
+                $body
+            }
+            ViewSpec::Tr(p) => {
+                let dims: [Dimension; $D] = std::array::from_fn(|k| shape[p[k]].0);
+                let $v = RecordTensor::from_existing(h, TensorView::from(TensorTranspose::from(base, dims)));
+                $body
+            }
+            ViewSpec::Rg(r) => {
+                let ranges: [Option<std::ops::Range<usize>>; $D] = std::array::from_fn(|k| Some(r[k].0..r[k].0 + r[k].1));
+                let $v = RecordTensor::from_existing(h, TensorView::from(TensorRange::from_all(base, ranges).expect("range")));
+                $body
+            }
+            ViewSpec::Rev(f) => {
+                let names: Vec<Dimension> = (0..$D).filter(|&k| f[k]).map(|k| shape[k].0).collect();
+                let $v = RecordTensor::from_existing(h, TensorView::from(TensorReverse::from(base, &names)));
+                $body
+            }
+            _ => unreachable!("harness: view kind not dispatched here"),
+        }
+    }};
+}
+
+macro_rules! tview_basic_mut {
+    ($D:literal, $base:expr, $spec:expr, $v:ident => $body:expr) => {{
+        let base = $base;
+        let h = base.history();
+        let shape = base.shape();
+        match $spec {
+            ViewSpec::Own => {
+                let $v = base.clone();
+                let r = $body;
+                r.map(|n| {
+                    *base = n;
+                })
+            }
+            ViewSpec::Ref => {
+                let $v = RecordTensor::from_existing(h, TensorView::from(&mut *base));
+                let r = $body;
+                r.map(|_| ())
+            }
+            _ => unreachable!("harness: view kind not dispatched here"),
+        }
+    }};
+}
+
+macro_rules! tview_fancy_mut {
+    ($D:literal, $base:expr, $spec:expr, $v:ident => $body:expr) => {{
+        let base = $base;
+        let h = base.history();
+        let shape = base.shape();
+        match $spec {
+            ViewSpec::Acc(p) => {
+                let dims: [Dimension; $D] = std::array::from_fn(|k| shape[p[k]].0);
+                let $v = RecordTensor::from_existing(h, TensorView::from(TensorAccess::from(&mut *base, dims)));
+                let r = $body;
+                r.map(|_| ())
+            }
+            ViewSpec::Tr(p) => {
+                let dims: [Dimension; $D] = std::array::from_fn(|k| shape[p[k]].0);
+                let $v = RecordTensor::from_existing(h, TensorView::from(TensorTranspose::from(&mut *base, dims)));
+                let r = $body;
+                r.map(|_| ())
+            }
+            ViewSpec::Rg(r_) => {
+                let ranges: [Option<std::ops::Range<usize>>; $D] = std::array::from_fn(|k| Some(r_[k].0..r_[k].0 + r_[k].1));
+                let $v = RecordTensor::from_existing(h, TensorView::from(TensorRange::from_all(&mut *base, ranges).expect("range")));
+                let r = $body;
+                r.map(|_| ())
+            }
+            ViewSpec::Rev(f) => {
+                let names: Vec<Dimension> = (0..$D).filter(|&k| f[k]).map(|k| shape[k].0).collect();
+                let $v = RecordTensor::from_existing(h, TensorView::from(TensorReverse::from(&mut *base, &names)));
+                let r = $body;
+                r.map(|_| ())
+            }
+            _ => unreachable!("harness: view kind not dispatched here"),
+        }
+    }};
+}
+
+macro_rules! mview_basic {
+    ($base:expr, $spec:expr, $v:ident => $body:expr) => {{
+        let base = $base;
+        let h = base.history();
+        match $spec {
+            ViewSpec::Own => {
+                let $v = base.clone();
+                $body
+            }
+            ViewSpec::Ref => {
+                let $v = RecordMatrix::from_existing(h, MatrixView::from(base));
+                $body
+            }
+            _ => unreachable!("harness: view kind not dispatched here"),
+        }
+    }};
+}
+
+macro_rules! mview_fancy {
+    ($base:expr, $spec:expr, $v:ident => $body:expr) => {{
+        let base = $base;
+        let h = base.history();
+        match $spec {
+            ViewSpec::Rg(r) => {
+                let $v = RecordMatrix::from_existing(
+                    h,
+                    MatrixView::from(MatrixRange::from(base, r[0].0..r[0].0 + r[0].1, r[1].0..r[1].0 + r[1].1)),
+                );
+                $body
+            }
+            ViewSpec::Rev(f) => {
+                let $v = RecordMatrix::from_existing(
+                    h,
+                    MatrixView::from(MatrixReverse::from(base, Reverse { rows: f[0], columns: f[1] })),
+                );
+                $body
+            }
+            _ => unreachable!("harness: view kind not dispatched here"),
+        }
+    }};
+}
+
+macro_rules! mview_basic_mut {
+    ($base:expr, $spec:expr, $v:ident => $body:expr) => {{
+        let base = $base;
+        let h = base.history();
+        match $spec {
+            ViewSpec::Own => {
+                let $v = base.clone();
+                let r = $body;
+                r.map(|n| {
+                    *base = n;
+                })
+            }
+            ViewSpec::Ref => {
+                let $v = RecordMatrix::from_existing(h, MatrixView::from(&mut *base));
+                let r = $body;
+                r.map(|_| ())
+            }
+            _ => unreachable!("harness: view kind not dispatched here"),
+        }
+    }};
+}
+
+macro_rules! mview_fancy_mut {
+    ($base:expr, $spec:expr, $v:ident => $body:expr) => {{
+        let base = $base;
+        let h = base.history();
+        match $spec {
+            ViewSpec::Rg(r_) => {
+                let $v = RecordMatrix::from_existing(
+                    h,
+                    MatrixView::from(MatrixRange::from(&mut *base, r_[0].0..r_[0].0 + r_[0].1, r_[1].0..r_[1].0 + r_[1].1)),
+                );
+                let r = $body;
+                r.map(|_| ())
+            }
+            ViewSpec::Rev(f) => {
+                let $v = RecordMatrix::from_existing(
+                    h,
+                    MatrixView::from(MatrixReverse::from(&mut *base, Reverse { rows: f[0], columns: f[1] })),
+                );
+                let r = $body;
+                r.map(|_| ())
+            }
+            _ => unreachable!("harness: view kind not dispatched here"),
+        }
+    }};
+}
+
+
+// ---------------------------------------------------------------------------------------------
+// element types: what only a `Real` type can do
+// ---------------------------------------------------------------------------------------------
+
+/// `full`: every ownership form of the operator impls (used with the owned and borrowed source
+/// kinds); `lite`: the all-references form only (used with the other source kinds, to keep the
+/// number of instantiations of the generic library code bearable).
+pub trait Elt: Numeric + Primitive + El + PartialOrd + FromUsize + 'static {
+    fn t_real_full<S: TensorRef<(Self, Index), D>, const D: usize>(
+        v: RecordTensor<'static, Self, S, D>,
+        op: &str,
+        via: &str,
+        k: Option<&Self>,
+    ) -> RT<Self, D>;
+    fn t_real_lite<S: TensorRef<(Self, Index), D>, const D: usize>(
+        v: RecordTensor<'static, Self, S, D>,
+        op: &str,
+        k: Option<&Self>,
+    ) -> RT<Self, D>;
+    fn m_real_full<S: MatrixRef<(Self, Index)> + NoInteriorMutability>(
+        v: RecordMatrix<'static, Self, S>,
+        op: &str,
+        via: &str,
+        k: Option<&Self>,
+    ) -> RM<Self>;
+    fn m_real_lite<S: MatrixRef<(Self, Index)> + NoInteriorMutability>(
+        v: RecordMatrix<'static, Self, S>,
+        op: &str,
+        k: Option<&Self>,
+    ) -> RM<Self>;
+    fn rec_real(x: &Rc<Self>, op: &str, k: Option<&Self>) -> Rc<Self>;
+}
+
+macro_rules! real_body_full {
+    ($v:expr, $op:expr, $via:expr, $k:expr) => {{
+        let v = $v;
+        match $op {
+            "sin" => if $via == "ref" { (&v).sin() } else { v.sin() },
+            "cos" => if $via == "ref" { (&v).cos() } else { v.cos() },
+            "exp" => if $via == "ref" { (&v).exp() } else { v.exp() },
+            "ln" => if $via == "ref" { (&v).ln() } else { v.ln() },
+            "sqrt" => if $via == "ref" { (&v).sqrt() } else { v.sqrt() },
+            "pown" => {
+                let k = $k.expect("number");
+                match $via {
+                    "val_val" => v.pow(k.clone()),
+                    "val_ref" => v.pow(k),
+                    "ref_val" => (&v).pow(k.clone()),
+                    _ => (&v).pow(k),
+                }
+            }
+            "npow" => {
+                let k = $k.expect("number");
+                match $via {
+                    "val_val" => k.clone().pow(v),
+                    "val_ref" => k.clone().pow(&v),
+                    "ref_val" => k.pow(v),
+                    _ => k.pow(&v),
+                }
+            }
+            other => panic!("harness: unknown real op {}", other),
+        }
+    }};
+}
+
+macro_rules! real_body_lite {
+    ($v:expr, $op:expr, $k:expr) => {{
+        let v = $v;
+        match $op {
+            "sin" => (&v).sin(),
+            "cos" => (&v).cos(),
+            "exp" => (&v).exp(),
+            "ln" => (&v).ln(),
+            "sqrt" => (&v).sqrt(),
+            "pown" => (&v).pow($k.expect("number")),
+            "npow" => $k.expect("number").pow(&v),
+            other => panic!("harness: unknown real op {}", other),
+        }
+    }};
+}
+
+impl Elt for Fp {
+    fn t_real_full<S: TensorRef<(Fp, Index), D>, const D: usize>(
+        v: RecordTensor<'static, Fp, S, D>,
+        op: &str,
+        via: &str,
+        k: Option<&Fp>,
+    ) -> RT<Fp, D> {
+        real_body_full!(v, op, via, k)
+    }
+    fn t_real_lite<S: TensorRef<(Fp, Index), D>, const D: usize>(v: RecordTensor<'static, Fp, S, D>, op: &str, k: Option<&Fp>) -> RT<Fp, D> {
+        real_body_lite!(v, op, k)
+    }
+    fn m_real_full<S: MatrixRef<(Fp, Index)> + NoInteriorMutability>(
+        v: RecordMatrix<'static, Fp, S>,
+        op: &str,
+        via: &str,
+        k: Option<&Fp>,
+    ) -> RM<Fp> {
+        real_body_full!(v, op, via, k)
+    }
+    fn m_real_lite<S: MatrixRef<(Fp, Index)> + NoInteriorMutability>(v: RecordMatrix<'static, Fp, S>, op: &str, k: Option<&Fp>) -> RM<Fp> {
+        real_body_lite!(v, op, k)
+    }
+    fn rec_real(x: &Rc<Fp>, op: &str, k: Option<&Fp>) -> Rc<Fp> {
+        match op {
+            "sin" => x.sin(),
+            "cos" => x.cos(),
+            "exp" => x.exp(),
+            "ln" => x.ln(),
+            "sqrt" => x.sqrt(),
+            "pown" => x.pow(k.unwrap()),
+            "npow" => k.unwrap().pow(x),
+            other => panic!("harness: unknown real op {}", other),
+        }
+    }
+}
+
+impl Elt for Rat {
+    fn t_real_full<S: TensorRef<(Rat, Index), D>, const D: usize>(
+        _v: RecordTensor<'static, Rat, S, D>,
+        _op: &str,
+        _via: &str,
+        _k: Option<&Rat>,
+    ) -> RT<Rat, D> {
+        panic!("harness: no real functions for Rat")
+    }
+    fn t_real_lite<S: TensorRef<(Rat, Index), D>, const D: usize>(_v: RecordTensor<'static, Rat, S, D>, _op: &str, _k: Option<&Rat>) -> RT<Rat, D> {
+        panic!("harness: no real functions for Rat")
+    }
+    fn m_real_full<S: MatrixRef<(Rat, Index)> + NoInteriorMutability>(
+        _v: RecordMatrix<'static, Rat, S>,
+        _op: &str,
+        _via: &str,
+        _k: Option<&Rat>,
+    ) -> RM<Rat> {
+        panic!("harness: no real functions for Rat")
+    }
+    fn m_real_lite<S: MatrixRef<(Rat, Index)> + NoInteriorMutability>(_v: RecordMatrix<'static, Rat, S>, _op: &str, _k: Option<&Rat>) -> RM<Rat> {
+        panic!("harness: no real functions for Rat")
+    }
+    fn rec_real(_x: &Rc<Rat>, _op: &str, _k: Option<&Rat>) -> Rc<Rat> {
+        panic!("harness: no real functions for Rat")
+    }
+}
+
+pub const REAL_OPS: [&str; 7] = ["sin", "cos", "exp", "ln", "sqrt", "pown", "npow"];
+
+// ---------------------------------------------------------------------------------------------
+// function tables
+// ---------------------------------------------------------------------------------------------
+
+/// `(f, f_x, f_y)` for `binary`, `binary_left_assign`, `binary_right_assign`: the four standard
+/// functions written as in functions.rs, and the user functions of c04.rs.
+pub fn bfn_triple<T>(name: &str) -> (F2<T>, F2<T>, F2<T>)
+where
+    T: Numeric + 'static,
+    for<'a> &'a T: NumericRef<T>,
+{
+    match name {
+        "add" => (Box::new(|x: T, y: T| x + y), Box::new(|_x: T, _y: T| T::one()), Box::new(|_x: T, _y: T| T::one())),
+        "sub" => (Box::new(|x: T, y: T| x - y), Box::new(|_x: T, _y: T| T::one()), Box::new(|_x: T, _y: T| -T::one())),
+        "mul" => (Box::new(|x: T, y: T| x * y), Box::new(|_x: T, y: T| y), Box::new(|x: T, _y: T| x)),
+        "div" => (
+            Box::new(|x: T, y: T| x / y),
+            Box::new(|_x: T, y: T| T::one() / y),
+            Box::new(|x: T, y: T| -x / (y.clone() * y)),
+        ),
+        other => binary_fn::<T>(other),
+    }
+}
+
+pub const BFNS: [&str; 7] = ["add", "sub", "mul", "div", "axy", "wsum", "psq"];
+pub const RECFNS_PLAIN: [&str; 5] = ["id", "sq", "aff", "konst", "half"];
+pub const RECFNS_INDEXED: [&str; 2] = ["alt", "scale"];
+
+/// Named functions `Record -> Record` (same table as `recFn` in lean/Driver/C06.lean); `k` is
+/// the element's row-major position, `tapes` the lists `lift.<t>` creates variables on.
+pub fn rec_fn<T>(name: &str, tapes: Vec<&'static WengertList<T>>) -> Box<dyn Fn(usize, Rc<T>) -> Rc<T>>
+where
+    T: Elt,
+    for<'a> &'a T: NumericRef<T>,
+{
+    let parts: Vec<&str> = name.split('.').collect();
+    match parts[0] {
+        "id" => Box::new(|_k, x| x),
+        "sq" => Box::new(|_k, x| &x * &x),
+        "aff" => Box::new(|_k, x| x * two::<T>() + T::one()),
+        "konst" => Box::new(|_k, x| Record::constant(x.number)),
+        "lift" => {
+            let t: usize = parts[1].parse().expect("tape");
+            let list = tapes[t];
+            Box::new(move |_k, x| Record::variable(x.number, list))
+        }
+        "half" => Box::new(|_k, x| if x.number < T::zero() { Record::constant(x.number) } else { x }),
+        "alt" => Box::new(|k, x| if k % 2 == 0 { x } else { Record::constant(x.number) }),
+        "scale" => Box::new(|k, x| x * T::from_usize(k + 1).expect("from_usize")),
+        other => panic!("harness: unknown record function {}", other),
+    }
+}
+
+// ---------------------------------------------------------------------------------------------
+// generic operations on containers over any source
+// ---------------------------------------------------------------------------------------------
+
+macro_rules! forms4 {
+    ($via:expr, $a:expr, $b:expr, $op:tt) => {
+        match $via {
+            "val_val" => $a $op $b,
+            "val_ref" => $a $op &$b,
+            "ref_val" => &$a $op $b,
+            "ref_ref" => &$a $op &$b,
+            other => panic!("harness: unknown form {}", other),
+        }
+    };
+}
+
+macro_rules! bin_body_full {
+    ($a:expr, $b:expr, $op:expr, $via:expr, $fns:expr) => {{
+        let (a, b) = ($a, $b);
+        match $op {
+            "add" => forms4!($via, a, b, +),
+            "sub" => forms4!($via, a, b, -),
+            "emul" => a.elementwise_multiply(&b),
+            "ediv" => a.elementwise_divide(&b),
+            "binary" => {
+                let (f, dfx, dfy) = $fns.expect("fn");
+                a.binary(&b, |x, y| f(x, y), |x, y| dfx(x, y), |x, y| dfy(x, y))
+            }
+            other => panic!("harness: unknown binary op {}", other),
+        }
+    }};
+}
+
+macro_rules! bin_body_lite {
+    ($a:expr, $b:expr, $op:expr, $fns:expr) => {{
+        let (a, b) = ($a, $b);
+        match $op {
+            "add" => &a + &b,
+            "sub" => &a - &b,
+            "emul" => a.elementwise_multiply(&b),
+            "ediv" => a.elementwise_divide(&b),
+            "binary" => {
+                let (f, dfx, dfy) = $fns.expect("fn");
+                a.binary(&b, |x, y| f(x, y), |x, y| dfx(x, y), |x, y| dfy(x, y))
+            }
+            other => panic!("harness: unknown binary op {}", other),
+        }
+    }};
+}
+
+type Fns3<'f, T> = Option<&'f (F2<T>, F2<T>, F2<T>)>;
+type Fns2<'f, T> = Option<&'f (F1<T>, F1<T>)>;
+
+fn t_bin_full<T, S1, S2, const D: usize>(
+    a: RecordTensor<'static, T, S1, D>,
+    b: RecordTensor<'static, T, S2, D>,
+    op: &str,
+    via: &str,
+    fns: Fns3<T>,
+) -> RT<T, D>
+where
+    T: Elt,
+    for<'x> &'x T: NumericRef<T>,
+    S1: TensorRef<(T, Index), D>,
+    S2: TensorRef<(T, Index), D>,
+{
+    bin_body_full!(a, b, op, via, fns)
+}
+
+fn t_bin_lite<T, S1, S2, const D: usize>(a: RecordTensor<'static, T, S1, D>, b: RecordTensor<'static, T, S2, D>, op: &str, fns: Fns3<T>) -> RT<T, D>
+where
+    T: Elt,
+    for<'x> &'x T: NumericRef<T>,
+    S1: TensorRef<(T, Index), D>,
+    S2: TensorRef<(T, Index), D>,
+{
+    bin_body_lite!(a, b, op, fns)
+}
+
+fn m_bin_full<T, S1, S2>(a: RecordMatrix<'static, T, S1>, b: RecordMatrix<'static, T, S2>, op: &str, via: &str, fns: Fns3<T>) -> RM<T>
+where
+    T: Elt,
+    for<'x> &'x T: NumericRef<T>,
+    S1: MatrixRef<(T, Index)> + NoInteriorMutability,
+    S2: MatrixRef<(T, Index)> + NoInteriorMutability,
+{
+    bin_body_full!(a, b, op, via, fns)
+}
+
+fn m_bin_lite<T, S1, S2>(a: RecordMatrix<'static, T, S1>, b: RecordMatrix<'static, T, S2>, op: &str, fns: Fns3<T>) -> RM<T>
+where
+    T: Elt,
+    for<'x> &'x T: NumericRef<T>,
+    S1: MatrixRef<(T, Index)> + NoInteriorMutability,
+    S2: MatrixRef<(T, Index)> + NoInteriorMutability,
+{
+    bin_body_lite!(a, b, op, fns)
+}
+
+fn t_matmul_full<T, S1, S2>(a: RecordTensor<'static, T, S1, 2>, b: RecordTensor<'static, T, S2, 2>, via: &str) -> RT<T, 2>
+where
+    T: Elt,
+    for<'x> &'x T: NumericRef<T>,
+    S1: TensorRef<(T, Index), 2>,
+    S2: TensorRef<(T, Index), 2>,
+{
+    forms4!(via, a, b, *)
+}
+
+fn t_matmul_lite<T, S1, S2>(a: RecordTensor<'static, T, S1, 2>, b: RecordTensor<'static, T, S2, 2>) -> RT<T, 2>
+where
+    T: Elt,
+    for<'x> &'x T: NumericRef<T>,
+    S1: TensorRef<(T, Index), 2>,
+    S2: TensorRef<(T, Index), 2>,
+{
+    &a * &b
+}
+
+fn m_matmul_full<T, S1, S2>(a: RecordMatrix<'static, T, S1>, b: RecordMatrix<'static, T, S2>, via: &str) -> RM<T>
+where
+    T: Elt,
+    for<'x> &'x T: NumericRef<T>,
+    S1: MatrixRef<(T, Index)> + NoInteriorMutability,
+    S2: MatrixRef<(T, Index)> + NoInteriorMutability,
+{
+    forms4!(via, a, b, *)
+}
+
+fn m_matmul_lite<T, S1, S2>(a: RecordMatrix<'static, T, S1>, b: RecordMatrix<'static, T, S2>) -> RM<T>
+where
+    T: Elt,
+    for<'x> &'x T: NumericRef<T>,
+    S1: MatrixRef<(T, Index)> + NoInteriorMutability,
+    S2: MatrixRef<(T, Index)> + NoInteriorMutability,
+{
+    &a * &b
+}
+
+macro_rules! un_body_full {
+    ($T:ty, $v:expr, $op:expr, $via:expr, $k:expr, $fns:expr, $real:path) => {{
+        let v = $v;
+        match $op {
+            "addn" => { let k = $k.expect("number").clone(); forms4!($via, v, k, +) }
+            "subn" => { let k = $k.expect("number").clone(); forms4!($via, v, k, -) }
+            "muln" => { let k = $k.expect("number").clone(); forms4!($via, v, k, *) }
+            "divn" => { let k = $k.expect("number").clone(); forms4!($via, v, k, /) }
+            "subsw" => {
+                let k = $k.expect("number").clone();
+                match $via {
+                    "val_val" => v.sub_swapped(k),
+                    "val_ref" => v.sub_swapped(&k),
+                    "ref_val" => (&v).sub_swapped(k),
+                    _ => (&v).sub_swapped(&k),
+                }
+            }
+            "divsw" => {
+                let k = $k.expect("number").clone();
+                match $via {
+                    "val_val" => v.div_swapped(k),
+                    "val_ref" => v.div_swapped(&k),
+                    "ref_val" => (&v).div_swapped(k),
+                    _ => (&v).div_swapped(&k),
+                }
+            }
+            "neg" => if $via == "ref" { -&v } else { -v },
+            "unary" => {
+                let (f, df): &(F1<$T>, F1<$T>) = $fns.expect("fn");
+                v.unary(|x| f(x), |x| df(x))
+            }
+            _ => $real(v, $op, $via, $k),
+        }
+    }};
+}
+
+macro_rules! un_body_lite {
+    ($T:ty, $v:expr, $op:expr, $k:expr, $fns:expr, $real:path) => {{
+        let v = $v;
+        match $op {
+            "addn" => &v + $k.expect("number"),
+            "subn" => &v - $k.expect("number"),
+            "muln" => &v * $k.expect("number"),
+            "divn" => &v / $k.expect("number"),
+            "subsw" => (&v).sub_swapped($k.expect("number")),
+            "divsw" => (&v).div_swapped($k.expect("number")),
+            "neg" => -&v,
+            "unary" => {
+                let (f, df): &(F1<$T>, F1<$T>) = $fns.expect("fn");
+                v.unary(|x| f(x), |x| df(x))
+            }
+            _ => $real(v, $op, $k),
+        }
+    }};
+}
+
+fn t_un_full<T, S, const D: usize>(v: RecordTensor<'static, T, S, D>, op: &str, via: &str, k: Option<&T>, fns: Fns2<T>) -> RT<T, D>
+where
+    T: Elt,
+    for<'x> &'x T: NumericRef<T>,
+    S: TensorRef<(T, Index), D>,
+{
+    un_body_full!(T, v, op, via, k, fns, T::t_real_full)
+}
+
+fn t_un_lite<T, S, const D: usize>(v: RecordTensor<'static, T, S, D>, op: &str, k: Option<&T>, fns: Fns2<T>) -> RT<T, D>
+where
+    T: Elt,
+    for<'x> &'x T: NumericRef<T>,
+    S: TensorRef<(T, Index), D>,
+{
+    un_body_lite!(T, v, op, k, fns, T::t_real_lite)
+}
+
+fn m_un_full<T, S>(v: RecordMatrix<'static, T, S>, op: &str, via: &str, k: Option<&T>, fns: Fns2<T>) -> RM<T>
+where
+    T: Elt,
+    for<'x> &'x T: NumericRef<T>,
+    S: MatrixRef<(T, Index)> + NoInteriorMutability,
+{
+    un_body_full!(T, v, op, via, k, fns, T::m_real_full)
+}
+
+fn m_un_lite<T, S>(v: RecordMatrix<'static, T, S>, op: &str, k: Option<&T>, fns: Fns2<T>) -> RM<T>
+where
+    T: Elt,
+    for<'x> &'x T: NumericRef<T>,
+    S: MatrixRef<(T, Index)> + NoInteriorMutability,
+{
+    un_body_lite!(T, v, op, k, fns, T::m_real_lite)
+}
+
+// ---------------------------------------------------------------------------------------------
+// the case
+// ---------------------------------------------------------------------------------------------
+
+pub enum AnyC<T: Primitive + 'static> {
+    T1(RT<T, 1>),
+    T2(RT<T, 2>),
+    T3(RT<T, 3>),
+    M(RM<T>),
+}
+
+impl<T: Elt> AnyC<T>
+where
+    for<'x> &'x T: NumericRef<T>,
+{
+    fn is_matrix(&self) -> bool {
+        matches!(self, AnyC::M(_))
+    }
+    fn shape(&self) -> Sh {
+        match self {
+            AnyC::T1(c) => c.shape().to_vec(),
+            AnyC::T2(c) => c.shape().to_vec(),
+            AnyC::T3(c) => c.shape().to_vec(),
+            AnyC::M(c) => vec![("r", c.rows()), ("c", c.columns())],
+        }
+    }
+    fn history(&self) -> Option<&'static WengertList<T>> {
+        match self {
+            AnyC::T1(c) => c.history(),
+            AnyC::T2(c) => c.history(),
+            AnyC::T3(c) => c.history(),
+            AnyC::M(c) => c.history(),
+        }
+    }
+    /// `(number, index)` in row-major order
+    fn elems(&self) -> Vec<(T, Index)> {
+        match self {
+            AnyC::T1(c) => c.view().iter().collect(),
+            AnyC::T2(c) => c.view().iter().collect(),
+            AnyC::T3(c) => c.view().iter().collect(),
+            AnyC::M(c) => c.view().row_major_iter().collect(),
+        }
+    }
+}
+
+pub struct Slot<T: Primitive + 'static> {
+    c: AnyC<T>,
+    /// the scalar mirror, row-major; `None` once the mirror could not follow
+    shadow: Option<Vec<Rc<T>>>,
+    /// mixed histories inside (after a failed `map_mut`): constness is not compared
+    mixed: bool,
+}
+
+pub struct CaseG<T: Primitive + 'static> {
+    // field order matters: containers and records are dropped before the tapes
+    slots: HashMap<String, Slot<T>>,
+    tapes: Vec<TapeBox<T>>,
+    stapes: Vec<TapeBox<T>>,
+}
+
+fn tensor_from<T: Elt, const D: usize>(shape: &Sh, vals: Vec<T>) -> Tensor<T, D> {
+    Tensor::from(shape_array::<D>(shape), vals)
+}
+
+fn same<T: PartialEq>(a: &[T], b: &[T]) -> bool {
+    a.len() == b.len() && a.iter().zip(b).all(|(x, y)| x == y)
+}
+
+fn shape_elems(shape: &Sh) -> usize {
+    shape.iter().map(|x| x.1).product()
+}
+
+impl<T> CaseG<T>
+where
+    T: Elt,
+    for<'x> &'x T: NumericRef<T>,
+{
+    pub fn new(n: usize) -> CaseG<T> {
+        CaseG {
+            slots: HashMap::new(),
+            tapes: (0..n).map(|_| TapeBox::new()).collect(),
+            stapes: (0..n).map(|_| TapeBox::new()).collect(),
+        }
+    }
+
+    fn tape_id(&self, h: Option<&WengertList<T>>) -> String {
+        match h {
+            None => "none".into(),
+            Some(h) => (0..self.tapes.len())
+                .find(|&t| std::ptr::eq(h, self.tapes[t].get()))
+                .map(|t| t.to_string())
+                .unwrap_or_else(|| "?".into()),
+        }
+    }
+
+    fn lists(&self, shadow: bool) -> Vec<&'static WengertList<T>> {
+        (if shadow { &self.stapes } else { &self.tapes }).iter().map(|t| t.get()).collect()
+    }
+
+    /// the answer for a stored container, with the comparison against its scalar mirror
+    fn answer(&self, name: &str) -> String {
+        let slot = &self.slots[name];
+        let elems = slot.c.elems();
+        let vals: Vec<T> = elems.iter().map(|e| e.0.clone()).collect();
+        let idx: Vec<usize> = elems.iter().map(|e| e.1).collect();
+        let is_const = slot.c.history().is_none();
+        let scalar = match &slot.shadow {
+            None => "skip".to_string(),
+            Some(recs) => {
+                let svals: Vec<T> = recs.iter().map(|r| r.number.clone()).collect();
+                let sconst = recs.iter().all(|r| r.history().is_none());
+                if same(&svals, &vals) && (slot.mixed || sconst == is_const) {
+                    "ok".to_string()
+                } else {
+                    format!("DIFF(v={},const={})", show_list(&svals), if sconst { 1 } else { 0 })
+                }
+            }
+        };
+        format!(
+            "shape={} const={} v={} scalar={} ## idx={}",
+            show_shape(&slot.c.shape()),
+            if is_const { 1 } else { 0 },
+            show_list(&vals),
+            scalar,
+            show_usizes(&idx)
+        )
+    }
+
+    fn put(&mut self, name: &str, c: AnyC<T>, shadow: Option<Vec<Rc<T>>>) {
+        self.slots.insert(name.to_string(), Slot { c, shadow, mixed: false });
+    }
+
+    /// operand token -> (name, view spec, view shape, offsets); `Err`: the answer for an unknown
+    /// name / an impossible view.  The reordering / range / reverse source kinds are driven for
+    /// two dimensional tensors and for matrices only.
+    fn operand(&self, tok: &str) -> Result<(String, ViewSpec, Sh, Vec<usize>), String> {
+        let (n, spec) = parse_operand(tok).ok_or("bad-ref")?;
+        let slot = self.slots.get(n).ok_or("bad-ref")?;
+        let shape = slot.c.shape();
+        if !spec.is_basic() && shape.len() != 2 {
+            return Err("bad-view".into());
+        }
+        let (vs, offs) = view_of(&shape, &spec, slot.c.is_matrix()).ok_or("bad-ref")?;
+        Ok((n.to_string(), spec, vs, offs))
+    }
+
+    fn shadow_view(&self, name: &str, offs: &[usize]) -> Option<Vec<Rc<T>>> {
+        self.slots[name].shadow.as_ref().map(|recs| offs.iter().map(|&o| recs[o].clone()).collect())
+    }
+
+    // -----------------------------------------------------------------------------------------
+
+    fn create(&mut self, toks: &[&str]) -> String {
+        let is_var = toks[0] == "vars";
+        let (name, kind, shape, vals) = (toks[1], toks[2], parse_shape(toks[3]), split_comma(toks[4]));
+        let vals: Vec<T> = vals.iter().map(|s| T::parse(s)).collect();
+        let t: usize = opt_arg("t", toks).map(|s| s.parse().unwrap()).unwrap_or(0);
+        let list = if is_var { Some(self.tapes[t].get()) } else { None };
+        macro_rules! mk {
+            ($D:literal, $variant:ident) => {{
+                let tensor = tensor_from::<T, $D>(&shape, vals.clone());
+                catch(|| {
+                    AnyC::$variant(match list {
+                        Some(l) => RecordTensor::variables(l, tensor),
+                        None => RecordTensor::constants(tensor),
+                    })
+                })
+            }};
+        }
+        let c = match (kind, shape.len()) {
+            ("M", 2) => {
+                let m = Matrix::from_flat_row_major((shape[0].1, shape[1].1), vals.clone());
+                catch(|| {
+                    AnyC::M(match list {
+                        Some(l) => RecordMatrix::variables(l, m),
+                        None => RecordMatrix::constants(m),
+                    })
+                })
+            }
+            ("T", 1) => mk!(1, T1),
+            ("T", 2) => mk!(2, T2),
+            ("T", 3) => mk!(3, T3),
+            _ => return "bad-op".into(),
+        };
+        let c = match c {
+            Ok(c) => c,
+            Err(k) => return panic_str(k),
+        };
+        let slist = self.stapes[t].get();
+        let shadow: Vec<Rc<T>> = vals
+            .iter()
+            .map(|x| if is_var { Record::variable(x.clone(), slist) } else { Record::constant(x.clone()) })
+            .collect();
+        self.put(name, c, Some(shadow));
+        self.answer(name)
+    }
+
+    fn unary_line(&mut self, toks: &[&str]) -> String {
+        let op = toks[0];
+        let via = opt_arg("via", toks).unwrap_or("ref_ref");
+        let (res, atok, k): (&str, &str, Option<T>) = match op {
+            "npow" => (toks[1], toks[3], Some(T::parse(toks[2]))),
+            "addn" | "subn" | "muln" | "divn" | "subsw" | "divsw" | "pown" => (toks[1], toks[2], Some(T::parse(toks[3]))),
+            _ => (toks[1], toks[2], None),
+        };
+        let (an, spec, _vs, offs) = match self.operand(atok) {
+            Ok(x) => x,
+            Err(e) => return e,
+        };
+        let fns: Option<(F1<T>, F1<T>)> = if op == "unary" { Some(unary_fn::<T>(opt_arg("fn", toks).unwrap())) } else { None };
+        let slot = &self.slots[&an];
+        let kr = k.as_ref();
+        let fr = fns.as_ref();
+        let basic = spec.is_basic();
+        let out: Result<AnyC<T>, PanicKind> = match &slot.c {
+            AnyC::T1(c) => tview_basic!(1, c, &spec, v => catch(move || AnyC::T1(t_un_full::<T, _, 1>(v, op, via, kr, fr)))),
+            AnyC::T2(c) if basic => tview_basic!(2, c, &spec, v => catch(move || AnyC::T2(t_un_full::<T, _, 2>(v, op, via, kr, fr)))),
+            AnyC::T2(c) => tview_fancy!(2, c, &spec, v => catch(move || AnyC::T2(t_un_lite::<T, _, 2>(v, op, kr, fr)))),
+            AnyC::T3(c) => tview_basic!(3, c, &spec, v => catch(move || AnyC::T3(t_un_full::<T, _, 3>(v, op, via, kr, fr)))),
+            AnyC::M(c) if basic => mview_basic!(c, &spec, v => catch(move || AnyC::M(m_un_full::<T, _>(v, op, via, kr, fr)))),
+            AnyC::M(c) => mview_fancy!(c, &spec, v => catch(move || AnyC::M(m_un_lite::<T, _>(v, op, kr, fr)))),
+        };
+        let out = match out {
+            Ok(c) => c,
+            Err(kind) => return panic_str(kind),
+        };
+        let shadow = self.shadow_view(&an, &offs).and_then(|recs| {
+            catch(|| recs.iter().map(|x| scalar_unary::<T>(x, op, kr, fr)).collect::<Vec<Rc<T>>>()).ok()
+        });
+        self.put(res, out, shadow);
+        self.answer(res)
+    }
+
+    fn binary_line(&mut self, toks: &[&str]) -> String {
+        let op = toks[0];
+        let via = opt_arg("via", toks).unwrap_or("ref_ref");
+        let res = toks[1];
+        let (a, b) = match (self.operand(toks[2]), self.operand(toks[3])) {
+            (Ok(a), Ok(b)) => (a, b),
+            (Err(e), _) | (_, Err(e)) => return e,
+        };
+        let fns: Option<(F2<T>, F2<T>, F2<T>)> = if op == "binary" { Some(bfn_triple::<T>(opt_arg("fn", toks).unwrap())) } else { None };
+        let fr = fns.as_ref();
+        let (sa, sb) = (&self.slots[&a.0], &self.slots[&b.0]);
+        let (spa, spb) = (&a.1, &b.1);
+        // every ownership form with the owned / borrowed source kinds; one of the operands may
+        // instead have one of the other source kinds (all-references form)
+        let (ba, bb) = (spa.is_basic(), spb.is_basic());
+        if !ba && !bb {
+            return "bad-view".into();
+        }
+        let out: Result<AnyC<T>, PanicKind> = if op == "matmul" {
+            match (&sa.c, &sb.c) {
+                (AnyC::T2(x), AnyC::T2(y)) if ba && bb => tview_basic!(2, x, spa, va => tview_basic!(2, y, spb, vb => catch(move || AnyC::T2(t_matmul_full::<T, _, _>(va, vb, via))))),
+                (AnyC::T2(x), AnyC::T2(y)) if bb => tview_fancy!(2, x, spa, va => tview_basic!(2, y, spb, vb => catch(move || AnyC::T2(t_matmul_lite::<T, _, _>(va, vb))))),
+                (AnyC::T2(x), AnyC::T2(y)) => tview_basic!(2, x, spa, va => tview_fancy!(2, y, spb, vb => catch(move || AnyC::T2(t_matmul_lite::<T, _, _>(va, vb))))),
+                (AnyC::M(x), AnyC::M(y)) if ba && bb => mview_basic!(x, spa, va => mview_basic!(y, spb, vb => catch(move || AnyC::M(m_matmul_full::<T, _, _>(va, vb, via))))),
+                (AnyC::M(x), AnyC::M(y)) if bb => mview_fancy!(x, spa, va => mview_basic!(y, spb, vb => catch(move || AnyC::M(m_matmul_lite::<T, _, _>(va, vb))))),
+                (AnyC::M(x), AnyC::M(y)) => mview_basic!(x, spa, va => mview_fancy!(y, spb, vb => catch(move || AnyC::M(m_matmul_lite::<T, _, _>(va, vb))))),
+                _ => return "bad-kind".into(),
+            }
+        } else {
+            match (&sa.c, &sb.c) {
+                (AnyC::T1(x), AnyC::T1(y)) => tview_basic!(1, x, spa, va => tview_basic!(1, y, spb, vb => catch(move || AnyC::T1(t_bin_full::<T, _, _, 1>(va, vb, op, via, fr))))),
+                (AnyC::T2(x), AnyC::T2(y)) if ba && bb => tview_basic!(2, x, spa, va => tview_basic!(2, y, spb, vb => catch(move || AnyC::T2(t_bin_full::<T, _, _, 2>(va, vb, op, via, fr))))),
+                (AnyC::T2(x), AnyC::T2(y)) if bb => tview_fancy!(2, x, spa, va => tview_basic!(2, y, spb, vb => catch(move || AnyC::T2(t_bin_lite::<T, _, _, 2>(va, vb, op, fr))))),
+                (AnyC::T2(x), AnyC::T2(y)) => tview_basic!(2, x, spa, va => tview_fancy!(2, y, spb, vb => catch(move || AnyC::T2(t_bin_lite::<T, _, _, 2>(va, vb, op, fr))))),
+                (AnyC::T3(x), AnyC::T3(y)) => tview_basic!(3, x, spa, va => tview_basic!(3, y, spb, vb => catch(move || AnyC::T3(t_bin_full::<T, _, _, 3>(va, vb, op, via, fr))))),
+                (AnyC::M(x), AnyC::M(y)) if ba && bb => mview_basic!(x, spa, va => mview_basic!(y, spb, vb => catch(move || AnyC::M(m_bin_full::<T, _, _>(va, vb, op, via, fr))))),
+                (AnyC::M(x), AnyC::M(y)) if bb => mview_fancy!(x, spa, va => mview_basic!(y, spb, vb => catch(move || AnyC::M(m_bin_lite::<T, _, _>(va, vb, op, fr))))),
+                (AnyC::M(x), AnyC::M(y)) => mview_basic!(x, spa, va => mview_fancy!(y, spb, vb => catch(move || AnyC::M(m_bin_lite::<T, _, _>(va, vb, op, fr))))),
+                _ => return "bad-kind".into(),
+            }
+        };
+        let out = match out {
+            Ok(c) => c,
+            Err(kind) => return panic_str(kind),
+        };
+        let shadow: Option<Result<Vec<Rc<T>>, PanicKind>> = match (self.shadow_view(&a.0, &a.3), self.shadow_view(&b.0, &b.3)) {
+            (Some(ra), Some(rb)) => Some(if op == "matmul" {
+                let (m, n, l) = (a.2[0].1, a.2[1].1, b.2[1].1);
+                catch(|| scalar_matmul::<T>(&ra, &rb, m, n, l))
+            } else {
+                catch(|| ra.iter().zip(rb.iter()).map(|(x, y)| scalar_binary::<T>(x, y, op, fr)).collect::<Vec<Rc<T>>>())
+            }),
+            _ => None,
+        };
+        match shadow {
+            Some(Ok(v)) => {
+                self.put(res, out, Some(v));
+                self.answer(res)
+            }
+            Some(Err(kind)) => {
+                // the scalar computation panicked where the container one did not
+                self.put(res, out, None);
+                self.answer(res).replace("scalar=skip", &format!("scalar=DIFF({})", panic_str(kind)))
+            }
+            None => {
+                self.put(res, out, None);
+                self.answer(res)
+            }
+        }
+    }
+
+    /// writes the new scalar records of an assigning operation back through the view
+    fn shadow_store(&mut self, name: &str, offs: &[usize], new: Option<Vec<Rc<T>>>) {
+        let slot = self.slots.get_mut(name).unwrap();
+        match (slot.shadow.as_mut(), new) {
+            (Some(recs), Some(new)) => {
+                for (o, r) in offs.iter().zip(new.into_iter()) {
+                    recs[*o] = r;
+                }
+            }
+            _ => slot.shadow = None,
+        }
+    }
+
+    fn uassign_line(&mut self, toks: &[&str]) -> String {
+        let via = opt_arg("via", toks).unwrap_or("assign");
+        let (an, spec, _vs, offs) = match self.operand(toks[1]) {
+            Ok(x) => x,
+            Err(e) => return e,
+        };
+        let fns = unary_fn::<T>(opt_arg("fn", toks).unwrap());
+        let (f, df) = (&fns.0, &fns.1);
+        macro_rules! body {
+            ($v:ident) => {
+                catch(move || {
+                    if via == "do" {
+                        $v.do_unary_assign(|x| f(x), |x| df(x))
+                    } else {
+                        let mut v = $v;
+                        v.unary_assign(|x| f(x), |x| df(x));
+                        v
+                    }
+                })
+            };
+        }
+        let slot = self.slots.get_mut(&an).unwrap();
+        let r: Result<(), PanicKind> = match &mut slot.c {
+            AnyC::T1(c) => tview_basic_mut!(1, c, &spec, v => body!(v)),
+            AnyC::T2(c) => tview_mut!(2, c, &spec, v => body!(v)),
+            AnyC::T3(c) => tview_basic_mut!(3, c, &spec, v => body!(v)),
+            AnyC::M(c) => mview_mut!(c, &spec, v => body!(v)),
+        };
+        if let Err(kind) = r {
+            return panic_str(kind);
+        }
+        let fr = Some(&fns);
+        let new = self
+            .shadow_view(&an, &offs)
+            .and_then(|recs| catch(|| recs.iter().map(|x| scalar_unary::<T>(x, "unary", None, fr)).collect::<Vec<Rc<T>>>()).ok());
+        self.shadow_store(&an, &offs, new);
+        self.answer(&an)
+    }
+
+    /// `lassign a b`: `a.binary_left_assign(&b, …)`; `rassign a b`: `a.binary_right_assign(&mut b, …)`
+    fn bassign_line(&mut self, toks: &[&str]) -> String {
+        let left = toks[0] == "lassign";
+        let via = opt_arg("via", toks).unwrap_or("assign");
+        let (a, b) = match (self.operand(toks[1]), self.operand(toks[2])) {
+            (Ok(a), Ok(b)) => (a, b),
+            (Err(e), _) | (_, Err(e)) => return e,
+        };
+        let fns = bfn_triple::<T>(opt_arg("fn", toks).unwrap());
+        let (f, dfx, dfy) = (&fns.0, &fns.1, &fns.2);
+        // the overwritten side is `target`, the other one is only read (through a copy, so that
+        // one container can be both)
+        let (target, other) = if left { (&a, &b) } else { (&b, &a) };
+        let other_copy: AnyC<T> = match &self.slots[&other.0].c {
+            AnyC::T1(c) => AnyC::T1(c.clone()),
+            AnyC::T2(c) => AnyC::T2(c.clone()),
+            AnyC::T3(c) => AnyC::T3(c.clone()),
+            AnyC::M(c) => AnyC::M(c.clone()),
+        };
+        let (tspec, ospec) = (&target.1, &other.1);
+        macro_rules! body {
+            ($t:ident, $o:ident) => {
+                catch(move || {
+                    if left {
+                        if via == "do" {
+                            $t.do_binary_left_assign(&$o, |x, y| f(x, y), |x, y| dfx(x, y), |x, y| dfy(x, y))
+                        } else {
+                            let mut t = $t;
+                            t.binary_left_assign(&$o, |x, y| f(x, y), |x, y| dfx(x, y), |x, y| dfy(x, y));
+                            t
+                        }
+                    } else if via == "do" {
+                        $o.do_binary_right_assign($t, |x, y| f(x, y), |x, y| dfx(x, y), |x, y| dfy(x, y))
+                    } else {
+                        let mut t = $t;
+                        $o.binary_right_assign(&mut t, |x, y| f(x, y), |x, y| dfx(x, y), |x, y| dfy(x, y));
+                        t
+                    }
+                })
+            };
+        }
+        // the `do_…` (by value) forms with the owned / borrowed source kinds only
+        macro_rules! body_lite {
+            ($t:ident, $o:ident) => {
+                catch(move || {
+                    let mut t = $t;
+                    if left {
+                        t.binary_left_assign(&$o, |x, y| f(x, y), |x, y| dfx(x, y), |x, y| dfy(x, y));
+                    } else {
+                        $o.binary_right_assign(&mut t, |x, y| f(x, y), |x, y| dfx(x, y), |x, y| dfy(x, y));
+                    }
+                    t
+                })
+            };
+        }
+        let (bt, bo) = (tspec.is_basic(), ospec.is_basic());
+        if !bt && !bo {
+            return "bad-view".into();
+        }
+        let slot = self.slots.get_mut(&target.0).unwrap();
+        let r: Result<(), PanicKind> = match (&mut slot.c, &other_copy) {
+            (AnyC::T1(c), AnyC::T1(o)) => tview_basic!(1, o, ospec, vo => tview_basic_mut!(1, c, tspec, vt => body!(vt, vo))),
+            (AnyC::T2(c), AnyC::T2(o)) if bt && bo => tview_basic!(2, o, ospec, vo => tview_basic_mut!(2, c, tspec, vt => body!(vt, vo))),
+            (AnyC::T2(c), AnyC::T2(o)) if bo => tview_basic!(2, o, ospec, vo => tview_fancy_mut!(2, c, tspec, vt => body_lite!(vt, vo))),
+            (AnyC::T2(c), AnyC::T2(o)) => tview_fancy!(2, o, ospec, vo => tview_basic_mut!(2, c, tspec, vt => body_lite!(vt, vo))),
+            (AnyC::T3(c), AnyC::T3(o)) => tview_basic!(3, o, ospec, vo => tview_basic_mut!(3, c, tspec, vt => body!(vt, vo))),
+            (AnyC::M(c), AnyC::M(o)) if bt && bo => mview_basic!(o, ospec, vo => mview_basic_mut!(c, tspec, vt => body!(vt, vo))),
+            (AnyC::M(c), AnyC::M(o)) if bo => mview_basic!(o, ospec, vo => mview_fancy_mut!(c, tspec, vt => body_lite!(vt, vo))),
+            (AnyC::M(c), AnyC::M(o)) => mview_fancy!(o, ospec, vo => mview_basic_mut!(c, tspec, vt => body_lite!(vt, vo))),
+            _ => return "bad-kind".into(),
+        };
+        if let Err(kind) = r {
+            return panic_str(kind);
+        }
+        let fr = Some(&fns);
+        let new = match (self.shadow_view(&a.0, &a.3), self.shadow_view(&b.0, &b.3)) {
+            (Some(ra), Some(rb)) => {
+                catch(|| ra.iter().zip(rb.iter()).map(|(x, y)| scalar_binary::<T>(x, y, "binary", fr)).collect::<Vec<Rc<T>>>()).ok()
+            }
+            _ => None,
+        };
+        let (tn, toffs) = (target.0.clone(), target.3.clone());
+        self.shadow_store(&tn, &toffs, new);
+        self.answer(&tn)
+    }
+
+    fn show_inconsistent(&self, first: Option<&WengertList<T>>, later: Option<&WengertList<T>>) -> String {
+        format!("err(inconsistent first={} later={})", self.tape_id(first), self.tape_id(later))
+    }
+
+    fn map_line(&mut self, toks: &[&str]) -> String {
+        let via = opt_arg("via", toks).unwrap_or("map");
+        let res = toks[1];
+        let (an, spec, vs, offs) = match self.operand(toks[2]) {
+            Ok(x) => x,
+            Err(e) => return e,
+        };
+        let fname = opt_arg("fn", toks).unwrap();
+        let f = rec_fn::<T>(fname, self.lists(false));
+        let st = strides(&vs);
+        let flat = move |i: &[usize]| i.iter().zip(st.iter()).map(|(x, y)| x * y).sum::<usize>();
+        let cols = vs.last().map(|x| x.1).unwrap_or(1);
+        let slot = &self.slots[&an];
+        macro_rules! tbody {
+            ($v:ident, $variant:ident) => {
+                catch(|| {
+                    if via == "with_index" {
+                        $v.map_with_index(|i, x| f(flat(&i), x)).map(AnyC::$variant)
+                    } else {
+                        $v.map(|x| f(0, x)).map(AnyC::$variant)
+                    }
+                })
+            };
+        }
+        let out = match &slot.c {
+            AnyC::T1(c) => tview_basic!(1, c, &spec, v => tbody!(v, T1)),
+            AnyC::T2(c) => tview!(2, c, &spec, v => tbody!(v, T2)),
+            AnyC::T3(c) => tview_basic!(3, c, &spec, v => tbody!(v, T3)),
+            AnyC::M(c) => mview!(c, &spec, v => catch(|| {
+                if via == "with_index" {
+                    v.map_with_index(|x, r, c| f(r * cols + c, x)).map(AnyC::M)
+                } else {
+                    v.map(|x| f(0, x)).map(AnyC::M)
+                }
+            })),
+        };
+        // the scalar mirror runs the function too (its tape effects happen in any case)
+        let sf = rec_fn::<T>(fname, self.lists(true));
+        let shadow = self
+            .shadow_view(&an, &offs)
+            .and_then(|recs| catch(|| recs.into_iter().enumerate().map(|(k, x)| sf(k, x)).collect::<Vec<Rc<T>>>()).ok());
+        match out {
+            Err(kind) => panic_str(kind),
+            Ok(Err(e)) => self.show_inconsistent(e.first, e.later),
+            Ok(Ok(c)) => {
+                self.put(res, c, shadow);
+                self.answer(res)
+            }
+        }
+    }
+
+    fn mapmut_line(&mut self, toks: &[&str]) -> String {
+        let via = opt_arg("via", toks).unwrap_or("map_mut");
+        let (an, spec, vs, offs) = match self.operand(toks[1]) {
+            Ok(x) => x,
+            Err(e) => return e,
+        };
+        let fname = opt_arg("fn", toks).unwrap();
+        let f = rec_fn::<T>(fname, self.lists(false));
+        let sf = rec_fn::<T>(fname, self.lists(true));
+        let st = strides(&vs);
+        let flat = move |i: &[usize]| i.iter().zip(st.iter()).map(|(x, y)| x * y).sum::<usize>();
+        let cols = vs.last().map(|x| x.1).unwrap_or(1);
+        let mut err: Option<(Option<&'static WengertList<T>>, Option<&'static WengertList<T>>)> = None;
+        let errp = &mut err;
+        let fp = &f;
+        let flatp = &flat;
+        macro_rules! tbody {
+            ($v:ident) => {
+                catch(move || {
+                    let mut v = $v;
+                    let r = if via == "with_index" { v.map_mut_with_index(|i, x| fp(flatp(&i), x)) } else { v.map_mut(|x| fp(0, x)) };
+                    if let Err(e) = r {
+                        *errp = Some((e.first, e.later));
+                    }
+                    v
+                })
+            };
+        }
+        let slot = self.slots.get_mut(&an).unwrap();
+        let r: Result<(), PanicKind> = match &mut slot.c {
+            AnyC::T1(c) => tview_basic_mut!(1, c, &spec, v => tbody!(v)),
+            AnyC::T2(c) => tview_mut!(2, c, &spec, v => tbody!(v)),
+            AnyC::T3(c) => tview_basic_mut!(3, c, &spec, v => tbody!(v)),
+            AnyC::M(c) => mview_mut!(c, &spec, v => catch(move || {
+                let mut v = v;
+                let r = if via == "with_index" { v.map_mut_with_index(|x, r, c| fp(r * cols + c, x)) } else { v.map_mut(|x| fp(0, x)) };
+                if let Err(e) = r {
+                    *errp = Some((e.first, e.later));
+                }
+                v
+            })),
+        };
+        if let Err(kind) = r {
+            return panic_str(kind);
+        }
+        let new = self
+            .shadow_view(&an, &offs)
+            .and_then(|recs| catch(|| recs.into_iter().enumerate().map(|(k, x)| sf(k, x)).collect::<Vec<Rc<T>>>()).ok());
+        self.shadow_store(&an, &offs, new);
+        match err {
+            None => self.answer(&an),
+            Some((first, later)) => {
+                self.slots.get_mut(&an).unwrap().mixed = true;
+                format!("{} {}", self.show_inconsistent(first, later), self.answer(&an))
+            }
+        }
+    }
+
+    /// the records an operand yields (`iter_as_records` in the requested order)
+    fn records_of(&self, name: &str, spec: &ViewSpec, order: &str) -> Vec<Rc<T>> {
+        let slot = &self.slots[name];
+        let mut recs: Vec<Rc<T>> = match &slot.c {
+            AnyC::T1(c) => tview_basic!(1, c, spec, v => v.iter_as_records().collect()),
+            AnyC::T2(c) => tview!(2, c, spec, v => v.iter_as_records().collect()),
+            AnyC::T3(c) => tview_basic!(3, c, spec, v => v.iter_as_records().collect()),
+            AnyC::M(c) => mview!(c, spec, v => if order == "cm" {
+                v.iter_column_major_as_records().collect()
+            } else {
+                v.iter_row_major_as_records().collect()
+            }),
+        };
+        if order == "rev" {
+            recs.reverse();
+        }
+        recs
+    }
+
+    fn column_major<X: Clone>(shape: &Sh, l: &[X]) -> Vec<X> {
+        if shape.len() != 2 {
+            return l.to_vec();
+        }
+        let (r, c) = (shape[0].1, shape[1].1);
+        let mut out = vec![];
+        for j in 0..c {
+            for i in 0..r {
+                out.push(l[i * c + j].clone());
+            }
+        }
+        out
+    }
+
+    fn build_from_iter(to_matrix: bool, shape: &Sh, recs: Box<dyn Iterator<Item = Rc<T>> + '_>) -> Result<Result<AnyC<T>, String>, PanicKind> {
+        use easy_ml::differentiation::iterators::InvalidRecordIteratorError as E;
+        macro_rules! conv {
+            ($r:expr, $variant:ident) => {
+                match $r {
+                    Ok(c) => Ok(AnyC::$variant(c)),
+                    Err(E::Shape { .. }) => Err("err(shape)".to_string()),
+                    Err(E::Empty) => Err("err(empty)".to_string()),
+                    Err(E::InconsistentHistory(h)) => Err(format!("INC {:?} {:?}", h.first.map(|x| x as *const _ as usize), h.later.map(|x| x as *const _ as usize))),
+                }
+            };
+        }
+        catch(move || {
+            if to_matrix {
+                conv!(RecordMatrix::from_iter((shape[0].1, shape[1].1), recs), M)
+            } else {
+                match shape.len() {
+                    1 => conv!(RecordTensor::from_iter(shape_array::<1>(shape), recs), T1),
+                    2 => conv!(RecordTensor::from_iter(shape_array::<2>(shape), recs), T2),
+                    3 => conv!(RecordTensor::from_iter(shape_array::<3>(shape), recs), T3),
+                    _ => panic!("harness: dimensionality"),
+                }
+            }
+        })
+    }
+
+    /// rewrites the address form of an inconsistent-history error into tape ids
+    fn fix_inc(&self, s: String) -> String {
+        if let Some(rest) = s.strip_prefix("INC ") {
+            let parts: Vec<&str> = rest.split(' ').collect();
+            let id = |p: &str| -> String {
+                if p == "None" {
+                    return "none".into();
+                }
+                let addr: usize = p.trim_start_matches("Some(").trim_end_matches(')').parse().unwrap_or(0);
+                (0..self.tapes.len())
+                    .find(|&t| self.tapes[t].get() as *const _ as usize == addr)
+                    .map(|t| t.to_string())
+                    .unwrap_or_else(|| "?".into())
+            };
+            format!("err(inconsistent first={} later={})", id(parts[0]), id(parts[1]))
+        } else {
+            s
+        }
+    }
+
+    fn fromiter_line(&mut self, toks: &[&str]) -> String {
+        let res = toks[1];
+        let (an, spec, vs, offs) = match self.operand(toks[2]) {
+            Ok(x) => x,
+            Err(e) => return e,
+        };
+        let to_matrix = opt_arg("to", toks) == Some("M");
+        let shape = parse_shape(opt_arg("shape", toks).unwrap());
+        let order = opt_arg("order", toks).unwrap_or("rm");
+        let fname = opt_arg("fn", toks).unwrap_or("id");
+        let take: Option<usize> = opt_arg("take", toks).map(|s| s.parse().unwrap());
+        let chain = match opt_arg("chain", toks) {
+            None => None,
+            Some(tok) => match self.operand(tok) {
+                Ok(x) => Some(x),
+                Err(e) => return e,
+            },
+        };
+        let f = rec_fn::<T>(fname, self.lists(false));
+        let sf = rec_fn::<T>(fname, self.lists(true));
+        // main: the records of the operand(s) as the library's iterators yield them
+        let mut recs = self.records_of(&an, &spec, order);
+        if let Some(c) = &chain {
+            recs.extend(self.records_of(&c.0, &c.1, "rm"));
+        }
+        let n = take.unwrap_or(recs.len());
+        let iter: Box<dyn Iterator<Item = Rc<T>>> = Box::new(recs.into_iter().take(n).map(move |x| f(0, x)));
+        let out = Self::build_from_iter(to_matrix, &shape, iter);
+        // mirror
+        let shadow = self.shadow_view(&an, &offs).and_then(|a| {
+            let mut a = match order {
+                "cm" => Self::column_major(&vs, &a),
+                "rev" => a.into_iter().rev().collect(),
+                _ => a,
+            };
+            if let Some(c) = &chain {
+                a.extend(self.shadow_view(&c.0, &c.3)?);
+            }
+            catch(|| a.into_iter().take(n).map(|x| sf(0, x)).collect::<Vec<Rc<T>>>()).ok()
+        });
+        match out {
+            Err(kind) => panic_str(kind),
+            Ok(Err(e)) => self.fix_inc(e),
+            Ok(Ok(c)) => {
+                self.put(res, c, shadow);
+                format!("ok {}", self.answer(res))
+            }
+        }
+    }
+
+    fn fromiters_line(&mut self, toks: &[&str]) -> String {
+        use easy_ml::differentiation::iterators::InvalidRecordIteratorError as E;
+        let names: Vec<&str> = split_comma(toks[1]);
+        let (an, spec, _vs, offs) = match self.operand(toks[2]) {
+            Ok(x) => x,
+            Err(e) => return e,
+        };
+        let to_matrix = opt_arg("to", toks) == Some("M");
+        let shape = parse_shape(opt_arg("shape", toks).unwrap());
+        let fnames: Vec<&str> = split_comma(opt_arg("fn", toks).unwrap());
+        if names.len() != 2 || fnames.len() != 2 {
+            return "bad-op".into();
+        }
+        let (f1, f2) = (rec_fn::<T>(fnames[0], self.lists(false)), rec_fn::<T>(fnames[1], self.lists(false)));
+        let (s1, s2) = (rec_fn::<T>(fnames[0], self.lists(true)), rec_fn::<T>(fnames[1], self.lists(true)));
+        let recs = self.records_of(&an, &spec, "rm");
+        let iter = recs.into_iter().map(move |x| {
+            let y1 = f1(0, x.clone());
+            let y2 = f2(0, x);
+            [y1, y2]
+        });
+        macro_rules! conv {
+            ($r:expr, $variant:ident) => {
+                $r.map(|one| match one {
+                    Ok(c) => Ok(AnyC::$variant(c)),
+                    Err(E::Shape { .. }) => Err("err(shape)".to_string()),
+                    Err(E::Empty) => Err("err(empty)".to_string()),
+                    Err(E::InconsistentHistory(h)) => Err(format!("INC {:?} {:?}", h.first.map(|x| x as *const _ as usize), h.later.map(|x| x as *const _ as usize))),
+                })
+            };
+        }
+        let shape_ref = &shape;
+        let out: Result<[Result<AnyC<T>, String>; 2], PanicKind> = catch(move || {
+            if to_matrix {
+                conv!(RecordMatrix::from_iters::<_, 2>((shape_ref[0].1, shape_ref[1].1), iter), M)
+            } else {
+                match shape_ref.len() {
+                    1 => conv!(RecordTensor::from_iters::<_, 2>(shape_array::<1>(shape_ref), iter), T1),
+                    2 => conv!(RecordTensor::from_iters::<_, 2>(shape_array::<2>(shape_ref), iter), T2),
+                    3 => conv!(RecordTensor::from_iters::<_, 2>(shape_array::<3>(shape_ref), iter), T3),
+                    _ => panic!("harness: dimensionality"),
+                }
+            }
+        });
+        let shadow: Option<(Vec<Rc<T>>, Vec<Rc<T>>)> = self.shadow_view(&an, &offs).and_then(|a| {
+            catch(|| {
+                let mut l1 = vec![];
+                let mut l2 = vec![];
+                for x in a {
+                    l1.push(s1(0, x.clone()));
+                    l2.push(s2(0, x));
+                }
+                (l1, l2)
+            })
+            .ok()
+        });
+        let out = match out {
+            Err(kind) => return panic_str(kind),
+            Ok(o) => o,
+        };
+        let (sh1, sh2) = match shadow {
+            Some((a, b)) => (Some(a), Some(b)),
+            None => (None, None),
+        };
+        let mut obs = vec![];
+        let mut aux = vec![];
+        for ((r, n), sh) in out.into_iter().zip(names.iter()).zip([sh1, sh2].into_iter()) {
+            let a = match r {
+                Err(e) => self.fix_inc(e),
+                Ok(c) => {
+                    self.put(n, c, sh);
+                    format!("ok {}", self.answer(n))
+                }
+            };
+            match a.split_once(" ## ") {
+                Some((o, x)) => {
+                    obs.push(o.to_string());
+                    aux.push(x.to_string());
+                }
+                None => {
+                    obs.push(a);
+                    aux.push(String::new());
+                }
+            }
+        }
+        format!("{} ## {}", obs.join(" | "), aux.join(" | "))
+    }
+
+    fn reset_line(&mut self, toks: &[&str]) -> String {
+        let via = opt_arg("via", toks).unwrap_or("reset");
+        let (an, spec, _vs, offs) = match self.operand(toks[1]) {
+            Ok(x) => x,
+            Err(e) => return e,
+        };
+        let slot = self.slots.get_mut(&an).unwrap();
+        macro_rules! body {
+            ($v:ident, $Ty:ident) => {
+                catch(move || {
+                    if via == "do_reset" {
+                        $Ty::do_reset($v)
+                    } else {
+                        let mut v = $v;
+                        v.reset();
+                        v
+                    }
+                })
+            };
+        }
+        let r: Result<(), PanicKind> = match &mut slot.c {
+            AnyC::T1(c) => tview_basic_mut!(1, c, &spec, v => body!(v, RecordTensor)),
+            AnyC::T2(c) => tview_mut!(2, c, &spec, v => body!(v, RecordTensor)),
+            AnyC::T3(c) => tview_basic_mut!(3, c, &spec, v => body!(v, RecordTensor)),
+            AnyC::M(c) => mview_mut!(c, &spec, v => body!(v, RecordMatrix)),
+        };
+        if let Err(kind) = r {
+            return panic_str(kind);
+        }
+        let new = self.shadow_view(&an, &offs).and_then(|recs| {
+            catch(|| {
+                recs.into_iter()
+                    .map(|mut x| {
+                        x.reset();
+                        x
+                    })
+                    .collect::<Vec<Rc<T>>>()
+            })
+            .ok()
+        });
+        self.shadow_store(&an, &offs, new);
+        self.answer(&an)
+    }
+
+    fn clear_line(&mut self, toks: &[&str]) -> String {
+        let t: usize = opt_arg("t", toks).map(|s| s.parse().unwrap()).unwrap_or(0);
+        if let Err(kind) = catch(|| self.tapes[t].get().clear()) {
+            return panic_str(kind);
+        }
+        self.stapes[t].get().clear();
+        "ok".into()
+    }
+
+    /// `d[x]` for every element `x` of the input operand, through the container API
+    fn at_all(&self, d: &Derivatives<T>, name: &str, spec: &ViewSpec, via: &str) -> Result<Vec<T>, PanicKind> {
+        let slot = &self.slots[name];
+        macro_rules! tbody {
+            ($v:ident) => {
+                catch(|| {
+                    if via == "for" {
+                        let lens: Vec<usize> = $v.shape().iter().map(|x| x.1).collect();
+                        all_indexes(&lens).iter().map(|i| d.at_tensor_index(to_array(i), &$v).expect("index in range")).collect::<Vec<T>>()
+                    } else {
+                        d.at_tensor(&$v).iter().collect::<Vec<T>>()
+                    }
+                })
+            };
+        }
+        match &slot.c {
+            AnyC::T1(c) => tview_basic!(1, c, spec, v => tbody!(v)),
+            AnyC::T2(c) => tview!(2, c, spec, v => tbody!(v)),
+            AnyC::T3(c) => tview_basic!(3, c, spec, v => tbody!(v)),
+            AnyC::M(c) => mview!(c, spec, v => catch(|| {
+                if via == "for" {
+                    let (r, k) = v.size();
+                    let mut out = vec![];
+                    for i in 0..r {
+                        for j in 0..k {
+                            out.push(d.at_matrix_index(i, j, &v).expect("index in range"));
+                        }
+                    }
+                    out
+                } else {
+                    d.at_matrix(&v).row_major_iter().collect::<Vec<T>>()
+                }
+            })),
+        }
+    }
+
+    fn derivs_line(&mut self, toks: &[&str]) -> String {
+        let via = opt_arg("via", toks).unwrap_or("all");
+        let (on, ospec, _ovs, ooffs) = match self.operand(toks[1]) {
+            Ok(x) => x,
+            Err(e) => return e,
+        };
+        let mut wrt = vec![];
+        for tok in split_comma(opt_arg("wrt", toks).unwrap_or("-")) {
+            match self.operand(tok) {
+                Ok(x) => wrt.push(x),
+                Err(e) => return e,
+            }
+        }
+        // one `Derivatives` per output element, in row-major order of the view
+        let slot = &self.slots[&on];
+        macro_rules! tbody {
+            ($v:ident) => {
+                catch(|| {
+                    if via == "for" {
+                        let lens: Vec<usize> = $v.shape().iter().map(|x| x.1).collect();
+                        all_indexes(&lens).iter().map(|i| $v.derivatives_for(to_array(i))).collect::<Option<Vec<Derivatives<T>>>>()
+                    } else {
+                        $v.derivatives().map(|t| t.iter_reference().cloned().collect::<Vec<Derivatives<T>>>())
+                    }
+                })
+            };
+        }
+        let ds: Result<Option<Vec<Derivatives<T>>>, PanicKind> = match &slot.c {
+            AnyC::T1(c) => tview_basic!(1, c, &ospec, v => tbody!(v)),
+            AnyC::T2(c) => tview!(2, c, &ospec, v => tbody!(v)),
+            AnyC::T3(c) => tview_basic!(3, c, &ospec, v => tbody!(v)),
+            AnyC::M(c) => mview!(c, &ospec, v => catch(|| {
+                if via == "for" {
+                    let (r, k) = v.size();
+                    let mut out = vec![];
+                    for i in 0..r {
+                        for j in 0..k {
+                            out.push(v.derivatives_for(i, j));
+                        }
+                    }
+                    out.into_iter().collect::<Option<Vec<Derivatives<T>>>>()
+                } else {
+                    v.derivatives().map(|m| m.row_major_reference_iter().cloned().collect::<Vec<Derivatives<T>>>())
+                }
+            })),
+        };
+        let ds = match ds {
+            Err(kind) => return panic_str(kind),
+            Ok(None) => return "none".into(),
+            Ok(Some(ds)) => ds,
+        };
+        let mut table: Vec<Vec<Vec<T>>> = vec![];
+        for d in &ds {
+            let mut per_out = vec![];
+            for w in &wrt {
+                match self.at_all(d, &w.0, &w.1, via) {
+                    Ok(v) => per_out.push(v),
+                    Err(kind) => return panic_str(kind),
+                }
+            }
+            table.push(per_out);
+        }
+        // the same with the scalar mirror
+        let scalar = (|| -> Option<Result<Vec<Vec<Vec<T>>>, PanicKind>> {
+            let outs = self.shadow_view(&on, &ooffs)?;
+            let mut ins = vec![];
+            for w in &wrt {
+                ins.push(self.shadow_view(&w.0, &w.3)?);
+            }
+            Some(catch(|| {
+                outs.iter()
+                    .map(|y| {
+                        let d = y.derivatives();
+                        ins.iter().map(|xs| xs.iter().map(|x| d[x].clone()).collect::<Vec<T>>()).collect::<Vec<Vec<T>>>()
+                    })
+                    .collect::<Vec<Vec<Vec<T>>>>()
+            }))
+        })();
+        let show = |t: &Vec<Vec<Vec<T>>>| {
+            t.iter().map(|per_out| per_out.iter().map(|l| show_list(l)).collect::<Vec<_>>().join(";")).collect::<Vec<_>>().join("|")
+        };
+        let verdict = match scalar {
+            None => "skip".to_string(),
+            Some(Ok(st)) => {
+                if st == table {
+                    "ok".to_string()
+                } else {
+                    format!("DIFF({})", show(&st))
+                }
+            }
+            Some(Err(kind)) => format!("DIFF({})", panic_str(kind)),
+        };
+        format!("d={} scalar={}", show(&table), verdict)
+    }
+
+    pub fn step(&mut self, toks: &[&str]) -> String {
+        match toks[0] {
+            "vars" | "consts" if toks.len() >= 5 => self.create(toks),
+            "clear" => self.clear_line(toks),
+            "reset" if toks.len() >= 2 => self.reset_line(toks),
+            "derivs" if toks.len() >= 2 => self.derivs_line(toks),
+            "uassign" if toks.len() >= 2 => self.uassign_line(toks),
+            "lassign" | "rassign" if toks.len() >= 3 => self.bassign_line(toks),
+            "map" if toks.len() >= 3 => self.map_line(toks),
+            "mapmut" if toks.len() >= 2 => self.mapmut_line(toks),
+            "fromiter" if toks.len() >= 3 => self.fromiter_line(toks),
+            "fromiters" if toks.len() >= 3 => self.fromiters_line(toks),
+            "add" | "sub" | "emul" | "ediv" | "binary" | "matmul" if toks.len() >= 4 => self.binary_line(toks),
+            "addn" | "subn" | "muln" | "divn" | "subsw" | "divsw" | "pown" | "npow" if toks.len() >= 4 => self.unary_line(toks),
+            "neg" | "sin" | "cos" | "exp" | "ln" | "sqrt" | "unary" if toks.len() >= 3 => self.unary_line(toks),
+            _ => "bad-op".into(),
+        }
+    }
+}
+
+// ---------------------------------------------------------------------------------------------
+// the same operations on scalar records
+// ---------------------------------------------------------------------------------------------
+
+fn scalar_unary<T>(x: &Rc<T>, op: &str, k: Option<&T>, fns: Fns2<T>) -> Rc<T>
+where
+    T: Elt,
+    for<'x> &'x T: NumericRef<T>,
+{
+    match op {
+        "addn" => x + k.unwrap(),
+        "subn" => x - k.unwrap(),
+        "muln" => x * k.unwrap(),
+        "divn" => x / k.unwrap(),
+        "subsw" => x.sub_swapped(k.unwrap()),
+        "divsw" => x.div_swapped(k.unwrap()),
+        "neg" => -x,
+        "unary" => {
+            let (f, df) = fns.unwrap();
+            extend(x.unary(|v| f(v), |v| df(v)))
+        }
+        _ => T::rec_real(x, op, k),
+    }
+}
+
+fn scalar_binary<T>(x: &Rc<T>, y: &Rc<T>, op: &str, fns: Fns3<T>) -> Rc<T>
+where
+    T: Elt,
+    for<'x> &'x T: NumericRef<T>,
+{
+    match op {
+        "add" => x + y,
+        "sub" => x - y,
+        "emul" => x * y,
+        "ediv" => x / y,
+        "binary" => {
+            let (f, dfx, dfy) = fns.unwrap();
+            extend(x.binary(y, |a, b| f(a, b), |a, b| dfx(a, b), |a, b| dfy(a, b)))
+        }
+        other => panic!("harness: unknown binary op {}", other),
+    }
+}
+
+/// `m × n` times `n × l` with scalar records: every cell is `zip.map(x * y).reduce(x + y)`
+/// (what `scalar_product` of tensors/operations.rs does for `T = Record`), cells in row-major order
+fn scalar_matmul<T>(a: &[Rc<T>], b: &[Rc<T>], m: usize, n: usize, l: usize) -> Vec<Rc<T>>
+where
+    T: Elt,
+    for<'x> &'x T: NumericRef<T>,
+{
+    let mut out = vec![];
+    for i in 0..m {
+        for j in 0..l {
+            let cell = (0..n).map(|k| &a[i * n + k] * &b[k * l + j]).reduce(|x, y| x + y).expect("non-empty");
+            out.push(cell);
+        }
+    }
+    out
+}
+
+// ---------------------------------------------------------------------------------------------
+// runner
+// ---------------------------------------------------------------------------------------------
+
+enum Case {
+    None,
+    Fp(CaseG<Fp>),
+    Rat(CaseG<Rat>),
+}
+
+pub struct Runner {
+    case: Case,
+}
 
 impl Runner {
     pub fn new() -> Runner {
-        Runner
+        Runner { case: Case::None }
     }
 
-    pub fn step(&mut self, _toks: &[&str]) -> String {
-        "unimplemented".into()
+    pub fn step(&mut self, toks: &[&str]) -> String {
+        if toks.is_empty() {
+            return "bad-op".into();
+        }
+        if toks[0] == "@" {
+            self.case = Case::None;
+            let n: usize = toks.get(2).and_then(|s| s.parse().ok()).unwrap_or(1);
+            self.case = match toks.get(3) {
+                Some(&"rat") => Case::Rat(CaseG::<Rat>::new(n)),
+                _ => Case::Fp(CaseG::<Fp>::new(n)),
+            };
+            return "ok".into();
+        }
+        match &mut self.case {
+            Case::None => "bad-op".into(),
+            Case::Fp(c) => c.step(toks),
+            Case::Rat(c) => c.step(toks),
+        }
     }
 }
